@@ -156,6 +156,10 @@ def build(prop, tier="quick"):
 
     escape_kernel(kb, hdr, C, tier)
     kb.static_facts.append(load_fact(hdr))
+    if tier == "thorough":
+        rc, cases, err = _run_probe(["search"], timeout=3000)
+        kb.static_facts.append(("native battery (thorough tier): probe_json.cpp - tolerance of 1.18 M inputs, documents, integers and string round trips on the real json.hpp under ASan",
+                                rc == 0 and not cases, (err.strip() + " " + str(cases[:3]))[:400]))
     kb.assumptions += [
         "std::string input modelled as (bytes, length) with at() / substr() throwing std::out_of_range per [string.access], [string.substr] (verif_stl.h vjs); inputs of at most 10^9 bytes",
         "A5: ::isspace in the \"C\" locale; for negative char values the C standard leaves ::isspace undefined - glibc answers false",
